@@ -18,8 +18,8 @@ class Check(PropertyCheck):
     assumptions = ["E-funds, E-actors, E-names, E-zero-coin (DESIGN.md section 4.5)"]
 
     def families(self, rng, tier):
-        return [("world.general", fam_world.general_histories(rng, tier)),
-                ("world.extreme", fam_world.extreme_histories(rng, tier)),
-                ("world.first_provision", fam_world.first_provision_matrix(rng, tier)),
-                ("world.lookalike", fam_world.lookalike_histories(rng, tier)),
-                ("world.reseed", fam_world.reseed_histories(rng, tier))]
+        return [("world.general", fam_world.general_histories(rng.sub("general_histories"), tier)),
+                ("world.extreme", fam_world.extreme_histories(rng.sub("extreme_histories"), tier)),
+                ("world.first_provision", fam_world.first_provision_matrix(rng.sub("first_provision_matrix"), tier)),
+                ("world.lookalike", fam_world.lookalike_histories(rng.sub("lookalike_histories"), tier)),
+                ("world.reseed", fam_world.reseed_histories(rng.sub("reseed_histories"), tier))]
